@@ -87,6 +87,7 @@ type NID struct {
 }
 type RefJ struct {
 	Type   *uint64 `json:"type"`
+	TStr   string  `json:"tstr,omitempty"` // NodeID.String() of the type when it is not a namespace 0 numeric id
 	TInt   uint32  `json:"tint"`
 	Fwd    bool    `json:"fwd"`
 	Target *NID    `json:"target"`
@@ -296,6 +297,9 @@ func dumpNode(n *server.Node) NodeJ {
 			k := keys.of(r.ReferenceTypeID.String())
 			rj.Type = &k
 			rj.TInt = r.ReferenceTypeID.IntID()
+			if k >= 1<<32 {
+				rj.TStr = r.ReferenceTypeID.String()
+			}
 		}
 		if r.NodeID != nil && r.NodeID.NodeID != nil {
 			t := nidOf(r.NodeID.NodeID)
@@ -484,9 +488,10 @@ func (s *sut) settle(want func(tablesJ) bool) tablesJ {
 // executing a history
 
 type History struct {
-	ID    int     `json:"id"`
-	Mode  string  `json:"mode"`
-	Nodes []NodeJ `json:"nodes"` // nodes to create before the history (ids must be fresh)
+	ID     int     `json:"id"`
+	Mode   string  `json:"mode"`
+	Nodes  []NodeJ `json:"nodes"`  // nodes to create before the history (ids must be fresh)
+	Shared []NID   `json:"shared"` // existing nodes whose current state belongs to the history's address space (dumped, not created)
 	Ops   []Op    `json:"ops"`
 }
 
@@ -753,8 +758,13 @@ func (r *runner) exec(op Op) (map[string]any, Outcome) {
 			ids = append(ids, r.resolveID(ref))
 		}
 		ev["ids"] = ids
+		subID := uint32(1)
+		if op.Sub != "" {
+			subID = r.resolveID(op.Sub) // the subscription the request names (the item ids are server-wide)
+		}
+		ev["subscription"] = subID
 		if op.Kind == "deleteitems" {
-			resp, err := c.call(&ua.DeleteMonitoredItemsRequest{SubscriptionID: 1, MonitoredItemIDs: ids}, tok, to)
+			resp, err := c.call(&ua.DeleteMonitoredItemsRequest{SubscriptionID: subID, MonitoredItemIDs: ids}, tok, to)
 			if err != nil {
 				return ev, fail(err)
 			}
@@ -765,7 +775,7 @@ func (r *runner) exec(op Op) (map[string]any, Outcome) {
 			return ev, o
 		}
 		ev["mode"] = op.Mode
-		resp, err := c.call(&ua.SetMonitoringModeRequest{SubscriptionID: 1, MonitoringMode: ua.MonitoringMode(op.Mode), MonitoredItemIDs: ids}, tok, to)
+		resp, err := c.call(&ua.SetMonitoringModeRequest{SubscriptionID: subID, MonitoringMode: ua.MonitoringMode(op.Mode), MonitoredItemIDs: ids}, tok, to)
 		if err != nil {
 			return ev, fail(err)
 		}
@@ -833,6 +843,9 @@ func buildNode(ns uint16, nj NodeJ) *server.Node {
 		rd := &ua.ReferenceDescription{IsForward: rj.Fwd, NodeClass: ua.NodeClass(rj.Class)}
 		if rj.Type != nil {
 			rd.ReferenceTypeID = ua.NewNumericNodeID(0, rj.TInt)
+			if rj.TStr != "" {
+				rd.ReferenceTypeID = ua.MustParseNodeID(rj.TStr)
+			}
 		}
 		if rj.Target != nil {
 			rd.NodeID = ua.NewExpandedNodeID(parseNID(*rj.Target), "", 0)
@@ -877,6 +890,11 @@ func (s *sut) runHistory(h History, dumpAll bool) (dead bool) {
 		for _, nj := range h.Nodes {
 			nodes = append(nodes, dumpNode(s.ns.VerifNode(parseNID(nj.ID).String())))
 		}
+		for _, sh := range h.Shared {
+			if n := s.srv.Node(parseNID(sh)); n != nil {
+				nodes = append(nodes, dumpNode(n))
+			}
+		}
 	}
 	init["nodes"] = nodes
 	init["tables"] = s.settle(nil)
@@ -892,6 +910,13 @@ func (s *sut) runHistory(h History, dumpAll bool) (dead bool) {
 		emit(map[string]any{"t": "pre", "hist": h.ID, "i": i, "op": op})
 		before := s.tables()
 		ev, o := r.exec(op)
+		if o.K == "timeout" {
+			// the server stopped answering: its tables may be locked for good (a handler blocked while holding a
+			// mutex), so they are not read again
+			emit(map[string]any{"t": "ev", "hist": h.ID, "i": i, "ev": ev, "out": o, "internal": nil, "tables": before})
+			emit(map[string]any{"t": "aborted", "hist": h.ID, "i": i, "why": "request not answered within the timeout"})
+			os.Exit(3)
+		}
 		// let the goroutines spawned for successful deletes finish, and report them as internal events
 		var internal []map[string]any
 		switch o.K {
@@ -947,6 +972,11 @@ func (s *sut) runHistory(h History, dumpAll bool) (dead bool) {
 			line["nodes"] = cur // the history's nodes after this request (oracle input)
 		}
 		emit(line)
+		if o.K == "timeout" {
+			// the server stopped answering: the tables may be locked for good, do not touch them again
+			emit(map[string]any{"t": "aborted", "hist": h.ID, "i": i, "why": "request not answered within the timeout"})
+			os.Exit(3)
+		}
 	}
 	// final dump of the history's nodes
 	var fin []NodeJ
@@ -1000,6 +1030,7 @@ func main() {
 		s := startServer(defaultSec(*noSec)...)
 		emit(map[string]any{"t": "consts", "hassubtype": id.HasSubtype, "hastypedefinition": id.HasTypeDefinition})
 		if *mode == "c33" {
+			setupC33(s)
 			// namespace 0 as the running server holds it (oracle input)
 			var all []NodeJ
 			if nn, ok := s.srv.Namespaces()[0].(*server.NodeNameSpace); ok {
